@@ -36,6 +36,15 @@ def known_shader_type(n, vn, kv):
     return n == "BSLightingShaderProperty" and stream > 139
 
 
+def known_sse_skinned_particles(n, vn, kv):
+    """SSE (user 12, stream 100) BSTriShape family: a skinned shape is written with zero vertex/triangle counts
+    (its data lives in the skin partition) but its particle arrays are still written with the in-memory
+    counts (Geometry.cpp:468-482 vs 576-598)"""
+    vs = be.VERS.get(vn, vn).split(",")
+    return (len(vs) == 3 and vs[1] == "12" and vs[2] == "100" and kv.get("bs_skinned") == "1"
+            and int(kv.get("bs_pds", "0") or 0) > 0 and (int(kv.get("bs_nv", "0") or 0) > 0 or int(kv.get("bs_nt", "0") or 0) > 0))
+
+
 def run(tier, seed, replay=None):
     rep = vlib.Reporter(PID, tier, seed)
     hygiene = vlib.coq_hygiene()
@@ -60,6 +69,17 @@ def run(tier, seed, replay=None):
         fcases = [r["case"]] if r.get("case", "").startswith("fileblk") else []
     else:
         cases = be.block_cases(info["blocks"], vers, seeds) + be.block_cases(lost, list(be.VERS), [seed + k for k in range(20)])
+        # pinned cases first (minimised failures and the inputs of the known findings)
+        cp = os.path.join(vlib.ROOT, "corpus", PID, "cases.txt")
+        if os.path.exists(cp):
+            vname = {v: k for k, v in be.VERS.items()}
+            pinned = []
+            for line in open(cp):
+                line = line.strip()
+                if line.startswith("blk "):
+                    kvp = dict(t.split("=", 1) for t in line.split()[1:])
+                    pinned.append((line, kvp["type"], vname.get(kvp["ver"], kvp["ver"]), int(kvp["seed"])))
+            cases = pinned + cases
         samples = sorted(f for f in os.listdir(samples_dir) if f.endswith(".nif"))
         rcases = ["resave name=%s opts=%s" % (f, o) for f in samples for o in ("raw", "default")]
         fcases = [c[0].replace("blk ", "fileblk ", 1) for c in be.block_cases(info["blocks"], vers, seeds[:1])]
@@ -76,6 +96,8 @@ def run(tier, seed, replay=None):
         if kv["rt"] != "1" or kv["consumed"] != "1":
             if known_shader_type(n, vn, kv) and any(k["id"] == "C01-fo76-shader-type" for k in rep.known):
                 rep.known_finding("C01-fo76-shader-type", c)
+            elif known_sse_skinned_particles(n, vn, kv) and any(k["id"] == "C01-sse-skinned-particle-data" for k in rep.known):
+                rep.known_finding("C01-sse-skinned-particle-data", c)
             else:
                 fails.append({"case": c, "type": n, "ver": vn, "what": "put(get(put(o))) differs from put(o), or get does not consume exactly what put wrote", "impl": l[:3000]})
         if n in info.get("opaque", {}):
